@@ -28,6 +28,7 @@ BASES = {
     "uniform": [["xyz", {"fg": 32, "bold": True, "underline": True, "bg": 41}]],
     "multi": [["p", {"fg": 31}], ["", {"bg": 44}], ["qr", {"bold": True, "italic": False}],
               ["s", {"bg": 45, "blink": True, "fg": 36}]],
+    "rendered": None,       # see base_value
 }
 
 INVALID = [
@@ -44,6 +45,10 @@ INVALID += [[[], {"style": ""}], [[], {"style": 0}], [[], {"style": False}], [[]
             [["bold"], {"bold": 0}], [[], {"style": "italic", "italic": 0}],
             [["bold"], {"bold": False}], [[], {"style": "underline", "underline": False}],
             [[], {"fg": [31]}], [[], {"bg": {}}], [[], {"fg": 31.5}], [[], {"fg": True}], [[], {"bg": b"blue"}]]
+# names of a type that is not str but has str's methods or compares equal to one
+INVALID += [[[b"red"], {}], [[b"bold"], {}], [[b"on_blue"], {}], [[], {"style": b"red"}],
+            [[{"__fmtstr__": "red"}], {}], [[{"__fmtstr__": "bold"}], {}], [[], {"style": {"__fmtstr__": "on_blue"}}],
+            [[["red"]], {}]]
 # unusual but meaningful values: ValueError or the obvious meaning (see kind "lenient")
 LENIENT = [[[], {"bold": 0}, {"bold": False}], [[], {"bold": None}, {"bold": False}], [[], {"underline": ""}, {"underline": False}],
            [[], {"bold": 1}, {"bold": True}], [[], {"italic": "yes"}, {"italic": True}],
@@ -88,6 +93,10 @@ def apply_algebra(cells, sp):
 
 
 def base_value(name):
+    if name == "rendered":
+        # a plain str holding the terminal string of a formatted value, more text after its reset
+        spec = BASES["multi"] + [["uv", {"fg": 33, "bold": True}]]
+        return str(obs.build(spec)) + "tail", obs.spec_cells(spec) + obs.observe("tail")
     b = BASES[name]
     if isinstance(b, str):
         return b, obs.observe(b)
@@ -266,7 +275,9 @@ def _run_case(ctx, case, rng):
         ctx.judge(not bad, case, mech="C14:shared_atts", expected="only values every character has",
                   got=sh, detail=bad[:3], nontrivial=bool(F))
     elif kind == "invalid":
-        args, kwargs = case["args"], case["kwargs"]
+        def real(v):
+            return fmtstr(v["__fmtstr__"]) if isinstance(v, dict) and "__fmtstr__" in v else v
+        args, kwargs = [real(a) for a in case["args"]], {k: real(v) for k, v in case["kwargs"].items()}
         via_cwna = case.get("via") == "copy_with_new_atts"
         if case.get("first"):
             # an equal-looking but acceptable specification is used first (0 == False, 31 == 31.0):
